@@ -265,6 +265,13 @@ static ares_bool_t fake_addrinfo(const char *name, unsigned short port,
       struct in_addr addr4;
       result =
         ares_inet_pton(AF_INET, name, &addr4) < 1 ? ARES_FALSE : ARES_TRUE;
+      if (result && family == AF_INET6) {
+        /* An IPv4 literal cannot satisfy an IPv6-only request, and it is not a
+         * host name that could be looked up either. */
+        ares_freeaddrinfo(ai);
+        callback(arg, ARES_ENOTFOUND, 0, NULL);
+        return ARES_TRUE;
+      }
       if (result) {
         status = ares_append_ai_node(AF_INET, port, 0, &addr4, &ai->nodes);
         if (status != ARES_SUCCESS) {
